@@ -1,0 +1,50 @@
+//go:build verif
+
+package verifhook
+
+import "sync/atomic"
+
+type hookFn func(point string, args ...uint64)
+type pickFn func(n uint32) (uint32, bool)
+
+var hook atomic.Pointer[hookFn]
+var pick atomic.Pointer[pickFn]
+
+// Enabled reports whether the package was built with the verif tag.
+const Enabled = true
+
+// Set installs (or, with nil, removes) the callback invoked by At.
+func Set(f func(point string, args ...uint64)) {
+	if f == nil {
+		hook.Store(nil)
+		return
+	}
+	h := hookFn(f)
+	hook.Store(&h)
+}
+
+// SetPick installs (or removes) the override consulted by Pick.
+func SetPick(f func(n uint32) (uint32, bool)) {
+	if f == nil {
+		pick.Store(nil)
+		return
+	}
+	p := pickFn(f)
+	pick.Store(&p)
+}
+
+// At marks a labelled point. The installed callback may log an event or block
+// the calling goroutine (scheduler gate).
+func At(point string, args ...uint64) {
+	if h := hook.Load(); h != nil {
+		(*h)(point, args...)
+	}
+}
+
+// Pick lets a replay dictate a choice among n alternatives.
+func Pick(n uint32) (uint32, bool) {
+	if p := pick.Load(); p != nil {
+		return (*p)(n)
+	}
+	return 0, false
+}
